@@ -331,6 +331,7 @@ fn replay_sync(args: &[String]) {
         let mut chans: BTreeMap<(i64, i64), std::collections::VecDeque<sync::Message>> = BTreeMap::new();
         let mut names = syncx::Names::new();
         let mut by_id: BTreeMap<i64, automerge::ChangeHash> = BTreeMap::new();
+        let mut tainted = false;
         for p in 1..=3i64 {
             docs.insert(p, Automerge::new().with_actor(enc::actor_from_num(p as u8)));
             for q in 1..=3i64 {
@@ -499,8 +500,11 @@ fn replay_sync(args: &[String]) {
             }));
             match r {
                 Ok((bad, got, natural_fp)) => {
+                    // a natural false positive of a real filter (the model only knows the forced ones) taints the rest
+                    // of the behaviour: the filter stays in the receiver's state and decides later messages
+                    tainted = tainted || natural_fp;
                     if !bad.is_empty() {
-                        if natural_fp && !bad.iter().any(|b| b.contains("false-negative")) {
+                        if tainted && !bad.iter().any(|b| b.contains("false-negative")) {
                             inconclusive += 1;
                             continue 'beh;
                         }
